@@ -1,4 +1,5 @@
 import AvroModel.Impl.Ser
+import AvroModel.Impl.De
 /-
 Line protocol (DESIGN.md 4.2): whitespace-separated tokens in prefix notation with explicit
 counts; strings and byte strings are hex with an `x` prefix (`x` alone is the empty string).
@@ -222,6 +223,62 @@ def ExtTable.toExt (t : ExtTable) : Ext where
   decRescale d target := match t.rescale.lookup (d.1, d.2, target) with
     | some r => r
     | none => d
+
+mutual
+partial def pHint : P Hint := do
+  let t ← tok
+  match t with
+  | "any" => pure .any | "u64" => pure .u64 | "i64" => pure .i64 | "u128" => pure .u128
+  | "i128" => pure .i128 | "f64" => pure .f64 | "str" => pure .str | "bytes" => pure .bytes
+  | "identifier" => pure .identifier | "ignored" => pure .ignored
+  | "option" => do pure (.option (← pHint))
+  | "seq" => do pure (.seq (← pHint))
+  | "tuple" => do let n ← pNat; let h ← pHint; pure (.tuple n h)
+  | "map" => do let k ← pHint; let v ← pHint; pure (.map k v)
+  | "struct" => do pure (.struct (← pList (do let k ← pStr; let h ← pHint; pure (k, h))))
+  | "enum" => do pure (.enum (← pList (do let k ← pStr; let v ← pVariantHint; pure (k, v))))
+  | _ => throw s!"unknown hint {t}"
+partial def pVariantHint : P VariantHint := do
+  let t ← tok
+  match t with
+  | "unit" => pure .unit
+  | "newtype" => do pure (.newtype (← pHint))
+  | "tuple" => do let n ← pNat; let h ← pHint; pure (.tuple n h)
+  | "struct" => do pure (.struct (← pList (do let k ← pStr; let h ← pHint; pure (k, h))))
+  | _ => throw s!"unknown variant hint {t}"
+end
+
+def strHex (s : String) : String := "x" ++ bytesToHex s.toUTF8.data.toList
+
+partial def outToString : Out → String
+  | .unit => "unit"
+  | .bool b => s!"bool {if b then 1 else 0}"
+  | .i32 i => s!"i32 {i}" | .i64 i => s!"i64 {i}" | .i128 i => s!"i128 {i}"
+  | .u32 n => s!"u32 {n}" | .u64 n => s!"u64 {n}" | .u128 n => s!"u128 {n}"
+  | .f32 b => "f32 " ++ String.ofList (hexPad 8 b.toNat)
+  | .f64 b => "f64 " ++ String.ofList (hexPad 16 b.toNat)
+  | .str s b => s!"str {strHex s} {if b then 1 else 0}"
+  | .bytes bs b => s!"bytes x{bytesToHex bs} {if b then 1 else 0}"
+  | .none => "none"
+  | .some o => "some " ++ outToString o
+  | .seq items => s!"seq {items.length}" ++ String.join (items.map fun o => " " ++ outToString o)
+  | .map es => s!"map {es.length}" ++ String.join (es.map fun (k, v) => " " ++ outToString k ++ " " ++ outToString v)
+  | .variant n p => "variant " ++ outToString n ++ " " ++ outToString p
+where
+  hexPad (w : Nat) (n : Nat) : List Char :=
+    (List.range w).reverse.map fun i => hexDigit ((n / 16 ^ i) % 16)
+
+/-- read back-end description: `slice` | `reader <last> <n> <sizes…> <maxAlloc>` -/
+def pBackend (bytes : Bytes → RState) : P (Bytes → RState) := do
+  let t ← tok
+  match t with
+  | "slice" => pure fun b => { bytes b with isSlice := true }
+  | "reader" => do
+    let last ← pNat
+    let sched ← pList pNat
+    let maxAlloc ← pNat
+    pure fun b => { bytes b with isSlice := false, lastChunk := last, sched := sched, maxAlloc := maxAlloc }
+  | _ => throw s!"unknown backend {t}"
 
 def run {α} (p : P α) (toks : List String) : Except String (α × List String) := p.run toks
 
